@@ -59,6 +59,10 @@ if o.strip():
 rc, o = sh(f'git -C /repo apply {out}/patch.diff')
 if rc != 0:
     print('patch does not apply to /repo', o); sys.exit(2)
+# the evidence files describe the UNCHANGED tree: keep them aside while the checks run against the seeded change
+evsave = f'/verif/.cache/evidence-save-{os.getpid()}'
+shutil.rmtree(evsave, ignore_errors=True)
+shutil.copytree('/verif/evidence', evsave)
 try:
     for p in props:
         t0 = time.time()
@@ -74,6 +78,9 @@ try:
                 break
 finally:
     sh('git -C /repo checkout -- .')
+    for f in os.listdir(evsave):
+        shutil.copy(os.path.join(evsave, f), os.path.join('/verif/evidence', f))
+    shutil.rmtree(evsave, ignore_errors=True)
 meta.update(dict(name=name, verification=res, tier=tier, ran=time.strftime('%Y-%m-%d %H:%M')))
 json.dump(meta, open(f'{dest}/meta.json', 'w'), indent=1)
 print(json.dumps(res, indent=1))
